@@ -3,7 +3,18 @@ package moss
 // C15: handles keep their data alive; closing everything releases everything.
 // C02: a snapshot is frozen for its whole life.
 
-func init() { vxRegister("vxH_C15_handles", vxH_C15_handles) }
+func init() {
+	vxRegister("vxH_C15_handles", vxH_C15_handles)
+	vxRegister("vxH_C15_reopened", vxH_C15_reopened)
+}
+
+func vxH_C15_handles() { vxHandlesScenario(false) }
+
+// vxH_C15_reopened: the same scenario on a store that already holds one
+// persisted round from an earlier session; handles are also opened right
+// after the reopen, before the first persistence round of this session, so
+// they rest on the footer the store was opened with.
+func vxH_C15_reopened() { vxHandlesScenario(true) }
 
 type vxHandleRec struct {
 	kind   int // 0 collection snapshot, 1 store snapshot, 2 iterator on a collection snapshot, 3 iterator on a store snapshot
@@ -21,7 +32,7 @@ type vxHandleRec struct {
 // exactly the content at the time it was taken (no fault on unmapped
 // memory); once everything is closed no file is open, nothing is mapped,
 // and the directory holds one data file.
-func vxH_C15_handles() {
+func vxHandlesScenario(prior bool) {
 	kl, vl := 1, 1
 	maxHandles := 2
 	fs := vxNewFS()
@@ -34,6 +45,24 @@ func vxH_C15_handles() {
 		rounds = 3 // the cached clean stack of round N pins the footer of round N-2
 	}
 	po := StorePersistOptions{CompactionConcern: CompactionConcern(vxChoose(3))}
+	var layers [][]vxEnt
+	if prior {
+		store0, coll0, err0 := OpenStoreCollection(fs.dir, so, po)
+		vxAssert("prior-open-ok", err0 == nil)
+		var e vxEnt
+		e.k.n = 1
+		e.k.b[0] = 'k'
+		e.op = OperationSet
+		e.v.b[0] = vxU8()
+		e.v.n = 1
+		vxExec(coll0, []vxEnt{e})
+		layers = append(layers, []vxEnt{e})
+		vxDrain(coll0)
+		coll0.Close()
+		store0.Close()
+		vxQuiesce()
+		rounds--
+	}
 	store, coll, err := OpenStoreCollection(fs.dir, so, po)
 	vxAssert("open-ok", err == nil)
 	// a fixed key with symbolic values: the property is about lifetimes,
@@ -43,7 +72,6 @@ func vxH_C15_handles() {
 	K.b[0] = 'k'
 	kb := vxKeyBytes(K)
 	_, _ = kl, vl
-	var layers [][]vxEnt
 	var hs []*vxHandleRec
 	openHandle := func() {
 		if len(hs) >= maxHandles || vxChoose(2) == 0 {
@@ -106,6 +134,17 @@ func vxH_C15_handles() {
 			got, gerr := h.snap.Get(kb, ReadOptions{})
 			vxAssert(tag+"-handle-get-ok", gerr == nil)
 			vxAssert(tag+"-snapshot-frozen", vxGotIs(got, ref))
+		}
+	}
+	if prior {
+		openHandle()
+		readAll("after-reopen")
+		if vxChoose(2) == 1 {
+			// a merger cycle with nothing to merge (what the idle merger
+			// does): the handles rest on the lower level only
+			coll.(*collection).NotifyMerger("idle", true)
+			vxQuiesce()
+			readAll("after-idle-cycle")
 		}
 	}
 	for r := 0; r < rounds; r++ {
